@@ -1,16 +1,16 @@
 INIT Init
 NEXT Next
 CONSTANTS
-  Ids <- IdsCBig
-  Names <- NamesCBig
+  Ids <- IdsC
+  Names <- NamesC
   Chars <- MCChars
-  Replicas = {"c", "ac", "ac2"}
+  Replicas = {"c", "ac"}
   Up <- MCUp
   IsCompact <- MCIsCompact
   MaxBatch = 2
-  ChunkSizes = {1, 2}
+  ChunkSizes = {1}
   MaxVer = 4
-  MaxRestarts = 2
+  MaxRestarts = 1
   MaxOps = 0
   OrigNames = FALSE
   OrigSkip = FALSE
